@@ -93,3 +93,31 @@ def list_ops_under_index_lock(ctx, fx, file, self_ty_suffix, index_lock_suffix, 
                               (c["f"].rsplit("::", 1)[-1], c["ln"], index_lock_suffix), fn.file, c["ln"])
     ctx.instance(rule + ".sites", n)
     return n
+
+
+def evict_only_for_new(ctx, fx, fid, value_field, evict_rx=r"::evict_lru$", rule="R-ORDER.evict"):
+    """`put` makes room only for a key that is not in the map yet: no path leads from the eviction call to the code that
+    overwrites the value of an existing entry. An overwrite of a resident key needs no room, and evicting first throws
+    out a live entry (possibly the very key being written) and fires its callback."""
+    rec = fx.raw(fid)
+    if rec is None:
+        raise Exception("%s: %s not found" % (rule, fid))
+    fn = Fn(rec)
+    ctx.analysed_fns.add(fid)
+    rx = re.compile(evict_rx)
+    ev = [(b, c) for b, c in fn.calls() if rx.search(c["f"])]
+    acc = [b for b, _ in _value_access_blocks(fn, value_field)]
+    n = 0
+    for b, c in ev:
+        n += 1
+        reach = fn.reachable_from([c["t"]] if c.get("t") is not None else fn.succ(b))
+        hit = [a for a in acc if a in reach]
+        ok = not hit
+        ctx.obligation(rule, fid, "eviction@%s cannot precede an overwrite" % c["ln"], ok,
+                       sample={"fn": fid, "evict_line": c["ln"], "overwrite_blocks_reachable": len(hit)})
+        if not ok:
+            ctx.violation(rule, fid, "eviction before the lookup of the key",
+                          "%s can evict (line %s) and then still find the key present and overwrite its value: an overwrite needs "
+                          "no room, so a live entry is lost (or the key being written is evicted and re-inserted)" %
+                          (fid.rsplit("::", 1)[-1], c["ln"]), fn.file, c["ln"])
+    return n
